@@ -290,11 +290,168 @@ def run(chk):
 
     chk.oracle('deferred_validation_sensitivity', list(POSITIONS.items()), o_resolvable, key_fn=lambda c: c[0])
 
+    # ------------------------------------------------------------------ deferred validation next to VALID neighbours
+    # an unresolvable / malformed value must never be masked by valid modifications of the same kind at the same
+    # position or target: 0-2 valid neighbours, every order, several rules / labels / groups
+    SEQ = 'PEMTIDE'
+    VALID = ['Oxidation', 'Phospho', 'Formula:C2H2O', 'UNIMOD:1', 'Acetyl', '+15.5', 'Methyl']
+
+    def groups(mods, o='[', c=']'):
+        return ''.join(o + m + c for m in mods)
+
+    KINDS = {
+        'labile': lambda ms: groups(ms, '{', '}') + SEQ,
+        'unknown': lambda ms: (groups(ms) + '?' if ms else '') + SEQ,
+        'nterm': lambda ms: (groups(ms) + '-' if ms else '') + SEQ,
+        'cterm': lambda ms: SEQ + ('-' + groups(ms) if ms else ''),
+        'residue': lambda ms: 'PEM' + groups(ms) + 'TIDE',
+        'residue-first': lambda ms: 'P' + groups(ms) + 'EMTIDE',
+        'residue-last': lambda ms: SEQ + groups(ms),
+        'interval': lambda ms: 'PE(MT)' + groups(ms) + 'IDE',
+        'static-one-rule': lambda ms: ('<' + groups(ms) + '@M>' if ms else '') + SEQ,
+        'static-rules-same-target': lambda ms: ''.join('<[%s]@M>' % m for m in ms) + SEQ,
+        'static-rules-nterm': lambda ms: ''.join('<[%s]@N-Term>' % m for m in ms) + SEQ,
+        'static-rules-cterm': lambda ms: ''.join('<[%s]@C-Term>' % m for m in ms) + SEQ,
+        'static-and-residue': lambda ms: ''.join('<[%s]@M>' % m for m in ms[:1]) + 'PEM' + groups(ms[1:]) + 'TIDE',
+    }
+
+    def arrangements(bad, r):
+        v1, v2 = r.sample(VALID, 2)
+        return [[bad], [v1, bad], [bad, v1], [v1, bad, v2], [v1, v2, bad], [bad, v1, v2]]
+
+    nb_cases = []      # (kind, text, text without the bad value, text with the bad value alone)
+    bads = UNRESOLVABLE if not quick else UNRESOLVABLE[:: 2] + ['NotAMod', 'Formula:C2H3Qq']
+    for kind, mk in KINDS.items():
+        for bad in bads:
+            if kind == 'labile' and '}' in bad:
+                continue
+            for arr in arrangements(bad, rng):
+                nb_cases.append((kind, mk(arr), mk([m for m in arr if m != bad]), mk([bad])))
+    # whole global rules that are malformed, next to well-formed rules (shared target, multi-target, disjoint target)
+    BAD_RULES = ['Foo@M', '@M', 'UNIMOD:99999999@M', 'Oxidation@M', 'Foo@M,T', 'Foo@N-Term', 'Foo@C-Term', '15.99@M', 'a@',
+                 'Oxidation]@M']
+    GOOD_RULES = ['[Oxidation]@M', '[Phospho]@M,T', '[Acetyl]@N-Term', '[Methyl]@C-Term', '[+15.5]@M', '[Oxidation]@T',
+                  '[Formula:C2H2O]@M,N-Term', '[Oxidation][Methyl]@M']
+
+    def rules(rs):
+        return ''.join('<' + x + '>' for x in rs) + SEQ
+
+    for bad in BAD_RULES:
+        for g1 in GOOD_RULES:
+            for arr in ([bad], [g1, bad], [bad, g1]):
+                nb_cases.append(('static-malformed-rule', rules(arr), rules([x for x in arr if x != bad]), rules([bad])))
+            g2 = rng.choice(GOOD_RULES)
+            for arr in ([g1, bad, g2], [g1, g2, bad], [bad, g1, g2]):
+                nb_cases.append(('static-malformed-rule', rules(arr), rules([x for x in arr if x != bad]), rules([bad])))
+    GOOD_ISO = ['13C', '15N', '18O', 'D', '34S']
+    for bad in ISOTOPE_BAD:
+        for g1 in GOOD_ISO:
+            g2 = rng.choice([g for g in GOOD_ISO if g != g1])
+            for arr in ([bad], [g1, bad], [bad, g1], [g1, bad, g2], [g1, g2, bad], [bad, g1, g2]):
+                nb_cases.append(('isotope-labels', rules(arr), rules([x for x in arr if x != bad]), rules([bad])))
+    # a bad isotope label or a bad rule next to valid rules / labels of the OTHER global kind
+    for bad in BAD_RULES[:4]:
+        nb_cases.append(('static-malformed-rule', rules(['13C', bad]), rules(['13C']), rules([bad])))
+    for bad in ISOTOPE_BAD[:4]:
+        nb_cases.append(('isotope-labels', rules(['[Oxidation]@M', bad]), rules(['[Oxidation]@M']), rules([bad])))
+    # charge adducts: one bracket group, comma separated ions
+    GOOD_ADD = ['+H+', '+Na+', '+K+', '-H+', '+2Na+']
+    BAD_ADD = ['+Foo+', 'Foo', '+2Xx+', '', '+', '2+', 'NotAnIon+', '+H+Foo']
+
+    def adducts(ions):
+        return SEQ + '/2[' + ','.join(ions) + ']'
+
+    for bad in BAD_ADD:
+        for g1 in GOOD_ADD:
+            g2 = rng.choice(GOOD_ADD)
+            for arr in ([bad], [g1, bad], [bad, g1], [g1, bad, g2], [g1, g2, bad], [bad, g1, g2]):
+                good = [x for x in arr if x is not bad]
+                nb_cases.append(('adducts', adducts(arr), adducts(good) if good else SEQ + '/2', adducts([bad])))
+    chk.count('deferred-validation neighbour cases', len(nb_cases))
+
+    FUNCS = (('mass', pt.mass), ('comp', pt.comp), ('comp_mass', pt.comp_mass), ('mz', pt.mz),
+             ('condense_static_mods', pt.condense_static_mods))
+
+    def call(fn, text):
+        """('ok', value) | ('ve', class name) | ('exc', description)"""
+        try:
+            return 'ok', L.with_alarm(lambda: fn(text))
+        except ValueError as e:
+            return 've', type(e).__name__
+        except Exception as e:  # noqa
+            return 'exc', f'{type(e).__name__}: {e}'
+
+    def o_neighbours(c):
+        kind, text, without, alone = c
+        try:
+            pt.parse(text)
+        except ValueError:
+            return None            # rejected by the parser: nothing to defer
+        except Exception as e:  # noqa
+            return f'parse raises {type(e).__name__}'
+        for name, fn in FUNCS:
+            if name == 'condense_static_mods' and not kind.startswith('static'):
+                continue
+            st, val = call(fn, text)
+            if st == 'exc':
+                return f'{name}({text!r}) raises {val} (not a ValueError)'
+            if st == 've':
+                continue
+            st_alone, _ = call(fn, alone)
+            if st_alone == 've':
+                return (f'{name}({alone!r}) raises a ValueError but {name}({text!r}) = {val!r}: the unresolvable value is masked by '
+                        f'its valid neighbours')
+            st_ref, ref = call(fn, without)
+            if st_ref == 'ok' and ref == val:
+                return (f'{name}({text!r}) = {val!r} equals {name}({without!r}): the unresolvable value ({kind}) is silently '
+                        f'counted as zero')
+        return None
+
+    chk.oracle('deferred_validation_neighbours', nb_cases, o_neighbours, key_fn=lambda c: c[1],
+               nontrivial_fn=lambda c: c[1] != c[3])
+
+    # where no error is expected: a second valid modification / rule / label adds exactly its own contribution
+    def o_additive(c):
+        kind, a_only, b_only, both_ab, both_ba, none = c
+        m0, ma, mb, mab, mba = (pt.mass(x) for x in (none, a_only, b_only, both_ab, both_ba))
+        if abs((mab - ma) - (mb - m0)) > 1e-6:
+            return (f'mass({both_ab!r}) - mass({a_only!r}) = {mab - ma!r} but the second one alone adds {mb - m0!r} ({kind}): a valid '
+                    f'neighbour changes what a modification contributes')
+        if abs(mab - mba) > 1e-6:
+            return f'mass depends on the order: {both_ab!r} -> {mab!r}, {both_ba!r} -> {mba!r}'
+        if abs(mb - m0) < 1e-9 or abs(ma - m0) < 1e-9:
+            return f'a valid modification contributes nothing ({kind}): {a_only!r} / {b_only!r}'
+        try:
+            cs = [pt.comp(x) for x in (none, a_only, b_only, both_ab)]
+        except ValueError:
+            return None            # numeric mass shifts have no composition
+        keys = set().union(*cs)
+        for k in keys:
+            d_ab = cs[3].get(k, 0) - cs[1].get(k, 0)
+            d_b = cs[2].get(k, 0) - cs[0].get(k, 0)
+            if abs(d_ab - d_b) > 1e-9:
+                return f'comp: element {k} changes by {d_ab} when the second modification is added to {a_only!r}, by {d_b} alone ({kind})'
+        return None
+
+    add_cases = []
+    for kind, mk in KINDS.items():
+        for _ in range(4 if quick else 12):
+            v1, v2 = rng.sample(VALID, 2)
+            add_cases.append((kind, mk([v1]), mk([v2]), mk([v1, v2]), mk([v2, v1]), mk([])))
+    for g1 in GOOD_RULES:
+        for g2 in GOOD_RULES:
+            if g1 != g2:
+                add_cases.append(('static-rules', rules([g1]), rules([g2]), rules([g1, g2]), rules([g2, g1]), rules([])))
+    for g1, g2 in itertools.permutations(['13C', '15N', '18O', 'D'], 2):
+        add_cases.append(('isotope-labels', rules([g1]), rules([g2]), rules([g1, g2]), rules([g2, g1]), rules([])))
+    chk.oracle('valid_neighbours_additive', add_cases, o_additive, key_fn=lambda c: c[3])
+
     chk.rule = (f'exhaustive: every string of <= {depth} tokens over the {len(L.TOKENS)}-token notation alphabet '
                 '(residues P,E; all bracket kinds; ? - + / ^ @ # | : , . ; digits 1,0; the name Oxidation; backslash; space); random strings '
                 'of <= 40 tokens over that alphabet and a wider one (more residues, N-Term, e, _, inf, nan, Formula:, tab, //); single-token '
                 'delete/insert/swap/duplicate/replace mutations and truncations of grammar-derived valid strings; deferred validation: every '
-                'modification position x unresolvable / malformed values; non-trivial = the string is accepted with at least one '
+                'modification position x unresolvable / malformed values, alone and next to 0-2 valid modifications / rules / labels of the '
+                'same kind at the same position or target in every order (never masked, never silently zero), valid pairs are additive; non-trivial = the string is accepted with at least one '
                 'modification or several chains (exhaustive), longer than 3 characters (oracle)')
     if not quick:
         chk.leanchecker(['PeptVerif.Props.C09', 'PeptVerif.Lemmas.ParserTotal', 'PeptVerif.Model.Serialize', 'PeptVerif.Model.Parser',
